@@ -581,6 +581,16 @@ func (m *a8Model) boundedUncached(v ssa.Value, at *ssa.BasicBlock, side int) boo
 					return m.lowerGE(x.Y, at, -k, 0)
 				}
 			}
+			if side == sideLower && m.tainted[x.X] && m.tainted[x.Y] {
+				// two numbers from outside, both >= 0: their sum is >= 0 only if it cannot wrap round — both are bounded
+				// above as well, or the sum was compared with one of its addends (`if end < start`) on the way here
+				if m.bounded(x.X, at, sideLower) && m.bounded(x.Y, at, sideLower) {
+					if (m.bounded(x.X, at, sideUpper) && m.bounded(x.Y, at, sideUpper)) || wrapGuarded(x, at) {
+						return true
+					}
+				}
+				return false
+			}
 			return m.bounded(x.X, at, side) && m.bounded(x.Y, at, side)
 		case token.SUB:
 			if side == sideUpper {
@@ -1042,7 +1052,7 @@ func (m *a8Model) fieldBounded(f *types.Var, side int) bool {
 	return false
 }
 
-const textA8 = "A8 (client-controlled integers): a number that comes from a command argument or is parsed from client/stored text reaches an allocation size (make length/capacity/map hint), a slice bound or index, or a shift count only where dominating comparisons (on every path; through clamps, parameters — at every call site —, fields and pointer-to-int arguments) bound it above by an untainted quantity and below by zero: otherwise one command can crash the process (makeslice/index panic) or exhaust its memory; and it is incremented by a positive constant (`stop++`) only where it is bounded above — the largest integer wraps round to the smallest and the loop it limits never ends; and it is negated only where it cannot be the smallest integer (a dominating `== MinInt` / range test, or the operand is `v+1`): `index = -index` leaves that one value negative and the range test that follows lets it through"
+const textA8 = "A8 (client-controlled integers): a number that comes from a command argument or is parsed from client/stored text reaches an allocation size (make length/capacity/map hint), a slice bound or index, or a shift count only where dominating comparisons (on every path; through clamps, parameters — at every call site —, fields and pointer-to-int arguments) bound it above by an untainted quantity and below by zero: otherwise one command can crash the process (makeslice/index panic) or exhaust its memory; and it is incremented by a positive constant (`stop++`) only where it is bounded above — the largest integer wraps round to the smallest and the loop it limits never ends; and it is negated only where it cannot be the smallest integer (a dominating `== MinInt` / range test, or the operand is `v+1`): `index = -index` leaves that one value negative and the range test that follows lets it through; and it is multiplied by a large constant (seconds into nanoseconds) only where it is bounded above — the product of an unchecked lifetime wraps round into a deadline in the past, the key is gone at once and the command answers as if it had set the deadline"
 
 func ruleA8(c *Ctx) {
 	c.S.Rule("A8-bounds", textA8, 10)
@@ -1108,6 +1118,19 @@ func ruleA8(c *Ctx) {
 				if x.Op == token.ADD && m.tainted[x.X] {
 					if k, isC := constInt(x.Y); isC && k > 0 {
 						sinks = append(sinks, sink{in, x.X, "increment", sideUpper})
+					}
+				}
+				// v * k with a large constant (a lifetime in seconds turned into nanoseconds): wraps round for v > MaxInt/k,
+				// and a deadline computed from it lies in the past
+				if x.Op == token.MUL {
+					v, kv := x.X, x.Y
+					if _, isC := constInt(v); isC {
+						v, kv = kv, v
+					}
+					if k, isC := constInt(kv); isC && (k >= 1000 || k <= -1000) && m.tainted[v] {
+						if b, ok := v.Type().Underlying().(*types.Basic); ok && b.Info()&types.IsInteger != 0 {
+							sinks = append(sinks, sink{in, v, "multiplication by " + fmt.Sprint(k), sideUpper})
+						}
 					}
 				}
 
@@ -1255,6 +1278,64 @@ func excludesMin(v ssa.Value, blk *ssa.BasicBlock) bool {
 			}
 		case token.GEQ, token.GTR:
 			if onTrue && (k > math.MinInt64 || op == token.GTR) {
+				return true
+			}
+		}
+	}
+	return false
+}
+
+// wrapGuarded: on the way to blk the sum was compared with one of its addends and found not smaller (the test that
+// catches a signed sum of two non-negative numbers that wrapped round)
+func wrapGuarded(sum *ssa.BinOp, blk *ssa.BasicBlock) bool {
+	isAddend := func(v ssa.Value) bool {
+		return v == sum.X || v == sum.Y || sameValue(v, sum.X) || sameValue(v, sum.Y)
+	}
+	isSum := func(v ssa.Value) bool {
+		if v == ssa.Value(sum) {
+			return true
+		}
+		bo, ok := v.(*ssa.BinOp)
+		return ok && bo.Op == token.ADD && ((sameValue(bo.X, sum.X) || bo.X == sum.X) && (sameValue(bo.Y, sum.Y) || bo.Y == sum.Y))
+	}
+	for d := blk; d != nil; d = d.Idom() {
+		p := d.Idom()
+		if p == nil {
+			break
+		}
+		ifi, ok := p.Instrs[len(p.Instrs)-1].(*ssa.If)
+		if !ok || len(p.Succs) != 2 {
+			continue
+		}
+		idx := -1
+		for i, sc := range p.Succs {
+			if (sc == d || sc.Dominates(d)) && len(sc.Preds) == 1 {
+				idx = i
+			}
+		}
+		// the edge may also lead straight into a merge that blk is (the untouched value of an if/else-if chain)
+		if idx < 0 {
+			for i, sc := range p.Succs {
+				if sc == blk {
+					idx = i
+				}
+			}
+		}
+		if idx < 0 {
+			continue
+		}
+		bo, ok := ifi.Cond.(*ssa.BinOp)
+		if !ok {
+			continue
+		}
+		onTrue := idx == 0
+		switch {
+		case isSum(bo.X) && isAddend(bo.Y):
+			if (bo.Op == token.LSS && !onTrue) || (bo.Op == token.GEQ && onTrue) {
+				return true
+			}
+		case isAddend(bo.X) && isSum(bo.Y):
+			if (bo.Op == token.GTR && !onTrue) || (bo.Op == token.LEQ && onTrue) {
 				return true
 			}
 		}
